@@ -44,7 +44,30 @@ type authWorld struct {
 	HostID string
 }
 
-func auName(c string) string { return "cli-" + c }
+// auName: the real chain name of an abstract counterparty.  The names are valid ones of different lengths: "one" is short,
+// "tss" has 51 characters and "two" the maximum of 64, so that stores, genesis validation and queries see long names too.
+// (The destination of this world's sends, "tss", avoids lengths of 31, 32, 63 and 64: the endpoint system contract
+// reverts with Panic(0x11) for those - DESIGN.md 9.7.)
+func auName(c string) string {
+	n := "cli-" + c
+	switch c {
+	case "two":
+		n += strings.Repeat("w", 64-len(n))
+	case "tss":
+		n += strings.Repeat("s", 51-len(n))
+	}
+	return n
+}
+
+// auAbs: the abstract name of a real chain name
+func auAbs(real string) string {
+	for _, c := range []string{"one", "two", "tss"} {
+		if auName(c) == real {
+			return c
+		}
+	}
+	return strings.TrimPrefix(real, "cli-")
+}
 
 func newAuthWorld() *authWorld {
 	w := NewWorldAccts([]string{"A"}, func(n string) []Acct {
@@ -148,7 +171,7 @@ func (a *authWorld) registry() M {
 		}
 		var ent []interface{}
 		for i, ch := range ir.Chains {
-			ent = append(ent, M{"c": strings.TrimPrefix(ch, "cli-"), "a": ir.Addresses[i]})
+			ent = append(ent, M{"c": auAbs(ch), "a": ir.Addresses[i]})
 		}
 		sort.Slice(ent, func(i, j int) bool { return ent[i].(M)["c"].(string) < ent[j].(M)["c"].(string) })
 		if ent == nil {
@@ -189,7 +212,7 @@ func (a *authWorld) project() M {
 	st["lat"] = lat
 	rc := []interface{}{}
 	for _, r := range c.App.XIBCKeeper.PacketKeeper.GetAllPacketReceipts(ctx) {
-		rc = append(rc, M{"c": strings.TrimPrefix(r.SrcChain, "cli-"), "s": int64(r.Sequence)})
+		rc = append(rc, M{"c": auAbs(r.SrcChain), "s": int64(r.Sequence)})
 	}
 	st["rcpt"] = rc
 	cm := []interface{}{}
@@ -200,7 +223,7 @@ func (a *authWorld) project() M {
 	ar := []interface{}{}
 	for _, pa := range c.App.XIBCKeeper.PacketKeeper.GetAllPacketAcks(ctx) {
 		k := fmt.Sprintf("%s/A/%d", pa.SrcChain, pa.Sequence)
-		e := M{"c": strings.TrimPrefix(pa.SrcChain, "cli-"), "s": int64(pa.Sequence), "rel": "?", "code": int64(-1)}
+		e := M{"c": auAbs(pa.SrcChain), "s": int64(pa.Sequence), "rel": "?", "code": int64(-1)}
 		var ack packettypes.Acknowledgement
 		if bz, ok := a.W.AckBytes[k]; ok && ack.ABIDecode(bz) == nil {
 			// the bytes harvested from the event are the committed ones
